@@ -97,6 +97,53 @@ PROPS = {
 }
 
 
+def graph_hist(req, I):
+    t = req.split()
+    d, m, s = t[1:4]
+    n = int(t[7])
+    ne = int(t[8 + n])
+    keys = [f'kind.dir{d}.multi{m}.loops{s}', 'n.%s' % (n if n < 10 else '10+'), 'm.%s' % (ne if ne < 12 else '12+')]
+    return keys
+
+
+def sp_hist(req, I):
+    t = req.split()
+    keys = graph_hist(req, I)
+    w, tg, c, fo, wp = t[-6:-1]
+    keys.append(f'opts.weighted{w}.target{int(tg != "-1")}.cutoff{int(c != "-999999")}.first{fo}.paths{wp}')
+    for f in ('ss', 'ms', 'ap'):
+        v = I.get(f, '')
+        if v.startswith('E'):
+            keys.append(f'{f}.{v}')
+    return keys
+
+
+def sp_nontrivial(req, I):
+    # some source reaches another node
+    return bool(re.search(r'\d+>\d+:\d+:[^ ;]*;', I.get('ss', '')))
+
+
+SP_RULE = ('random graphs of all 8 kinds (directed x multi-edge x self-loops) with 1..size nodes (names shuffled), four density '
+           'shapes incl. two components, integer weights 0..4 / 1..4 / unweighted, parallel edges with different weights; '
+           'target in {None, a node, an absent name}, cutoff in halves 0..6, first_only, with_paths; every node as source through '
+           'single_source, multi_source and all_pairs; non-trivial = some source reaches another node')
+
+PROPS.update({
+    'C04': dict(
+        gens=[('sp', 'small', 2500, 40000, 8), ('sp', 'parallel', 25, 300, 40)],
+        spec_fields=[r'ok\.ss', r'ok\.ms', r'ok\.ap'],
+        model_fields=[r'build', r'ss', r'ms', r'ap'],
+        nontrivial=sp_nontrivial, hist=sp_hist, rule=SP_RULE, assumptions=COMMON_ASSUME,
+    ),
+    'C08': dict(
+        gens=[('sp', 'small', 2500, 40000, 7), ('sp', 'parallel', 15, 200, 30)],
+        spec_fields=[r'ok\.ss', r'ok\.ms', r'ok\.ap', r'ok\.inv'],
+        model_fields=[r'build', r'ss', r'ms', r'ap', r'inv'],
+        nontrivial=sp_nontrivial, hist=sp_hist, rule=SP_RULE, assumptions=COMMON_ASSUME,
+    ),
+})
+
+
 def run_translator(ctx, name):
     import extract
     return extract.run(ctx, name)
